@@ -531,9 +531,10 @@ leaps_before(struct dt_dt_s d)
 		break;
 	case DT_SEXY:
 	case DT_SEXYTAI:
-		res = leaps_before_si32(leaps_s, nleaps, (int32_t)d.sexy);
+		res = leaps_before_si32(
+			leaps_s, nleaps, leaps_si32_key(d.sexy));
 		on = (res + 1U < nleaps) &&
-			(leaps_s[res + 1] == (int32_t)d.sexy);
+			(leaps_s[res + 1] == d.sexy);
 		break;
 	default:
 		res = 0;
@@ -1449,7 +1450,8 @@ dt_dtconv(dt_dttyp_t tgttyp, struct dt_dt_s d)
 				zidx_t zi;
 
 				sx = (dd - DAISY_UNIX_BASE) * SECS_PER_DAY + ss;
-				zi = leaps_before_si32(leaps_s, nleaps, sx);
+				zi = leaps_before_si32(
+					leaps_s, nleaps, leaps_si32_key(sx));
 				d.sexy = sx + leaps_corr[zi];
 				break;
 			}
